@@ -245,7 +245,7 @@ func c14Run(c *Ctx) {
 	enterScratch()
 	bound := 2
 	if c.Thorough() {
-		bound = 3
+		bound = 4
 	}
 	cases := c14Cases()
 	for id, p := range cases {
@@ -378,7 +378,7 @@ func init() {
 		Bounds: func(tier string) map[string]any {
 			b := 2
 			if tier == "thorough" {
-				b = 3
+				b = 4
 			}
 			return map[string]any{"cases": len(c14Cases()), "deviation_bound": b, "answers_per_choice_point": "n! for n<=5 entries (3 answers beyond)"}
 		},
